@@ -359,6 +359,12 @@ class Scheduler:
             self.task_states[tid] = LocalStatus.KILLED
         except TaskFailedError:
             self.task_states[tid] = LocalStatus.FAILED
+        except Exception:
+            # The task could not be started (e.g. missing working directory), its
+            # logs could not be written, or it named an unknown dependency. It must
+            # still reach a final state, otherwise it and its dependents hang forever.
+            logger.exception("Task %s failed unexpectedly", name)
+            self.task_states[tid] = LocalStatus.FAILED
         else:
             self.task_states[tid] = LocalStatus.COMPLETED
         finally:
